@@ -183,8 +183,10 @@ Definition mon_poll (p : params) (napps : nat) (m : mon) (s : pstep) : mon * lis
   let k0 := v_kind pre in
   let k1 := v_kind post in
   let grew := Nat.ltb (m_left m) (length (s_rx s)) in
-  (* RX growth, or the own transmission still seen in progress (tx_busy), is bus activity *)
-  let lba := if grew || s_busy s then Some (zmax_opt (m_lba m) now) else m_lba m in
+  (* RX growth, or the own transmission still seen in progress (tx_busy), is bus activity - for a station
+     that is online: an offline station's poll returns at once, it observes nothing (O9) *)
+  let pre_online := match v_conn pre with ConnOffline => false | _ => true end in
+  let lba := if (grew || s_busy s) && pre_online then Some (zmax_opt (m_lba m) now) else m_lba m in
   let sync := p_bits_to_time p prop_sync_bits in
   let slot := slot_time p in
   let silent_for (d : Z) : bool := match lba with Some l => l + d <? now | None => true end in
@@ -202,10 +204,14 @@ Definition mon_poll (p : params) (napps : nat) (m : mon) (s : pstep) : mon * lis
         check (silent_for sync) R01_sync_pause ++
         (if kind_in k0 [KUseToken; KClaimToken; KAwaitDataResponse; KAwaitStatusResponse; KPassToken] then []
          else if state_kind_eqb k0 KCheckTokenPass then check (silent_for slot) R01_check_pass_before_slot
-         else if kind_in k0 [KListenToken; KActiveIdle] then
+         else if kind_in k0 [KListenToken; KActiveIdle; KOffline] then
+           (* Offline: the poll that takes the station online may claim at once when the station re-created
+              itself after an address collision and kept the instant of that poll as its silence reference
+              (O9, m_start below); a status reply is never sent in that poll *)
            match txt with
            | Some (TData h _) =>
-               check (match h_fc h with FcResponse _ _ => h_sa h =? ts | _ => false end) R01_who_may_transmit
+               check (match h_fc h with FcResponse _ _ => (h_sa h =? ts) && negb (state_kind_eqb k0 KOffline) | _ => false end)
+                     R01_who_may_transmit
            | _ =>
                check (is_claim_token ts w) R01_who_may_transmit ++
                check (match m_start m with
@@ -227,7 +233,12 @@ Definition mon_poll (p : params) (napps : nat) (m : mon) (s : pstep) : mon * lis
                 | None => None
                 end in
   let online := match v_conn post with ConnOffline => false | _ => true end in
-  let start := if online then match m_start m with Some t => Some t | None => Some now end else None in
+  (* the instant the silence time-out is measured from at the earliest: the first poll in which the station
+     was online - or, for a station that goes offline by itself in this poll (it re-creates itself after the
+     second address collision while listening; the code may keep `now` as last_bus_activity, O9), this poll;
+     kept while it stays offline (`A off` resets it) *)
+  let start := if online then match m_start m with Some t => Some t | None => Some now end
+               else if pre_online then Some now else m_start m in
   let quiet := if negb online then None else
                match tx_end with
                | Some e => Some (zmax_opt (m_quiet m) e)
@@ -390,6 +401,10 @@ Definition mon_poll (p : params) (napps : nat) (m : mon) (s : pstep) : mon * lis
   let m3 :=
     if new_visit
     then mkMon post left lba' quiet cand pass gap_polls req out (m_turn m2) (m_tt m) now 0 start
+    else if state_kind_eqb k1 KOffline
+    then (* the station re-created itself in this poll (second address collision while listening): as after
+            `A off` its last_token_time is 0 again, the hold-time bookkeeping of C13 starts again *)
+         mkMon post left lba' quiet cand pass gap_polls req out (m_turn m2) 0 0 0%nat start
     else mkMon post left lba' quiet cand pass gap_polls req out (m_turn m2) (m_prev_tt m) (m_tt m) rounds start in
   (m3, e01 ++ e06 ++ e11a ++ e11c ++ e11b ++ e12a ++ e12b ++ ecalls ++ e15).
 
